@@ -215,6 +215,7 @@ type c07RaceWorker struct {
 	zs    []uint // own zoo ids
 	ro    bool   // read-only program (several connections)
 	hmodel bool  // the shared handle carries Model(&C07Zoo{})
+	inTx   bool  // the current operation runs inside a transaction the goroutine opened (derivation begin / transaction)
 	nohold bool  // never keep a connection over several statements (see c07_derive.go, environment rule)
 	only  string
 	kinds map[string]bool
@@ -1007,7 +1008,18 @@ func c07RaceChild(r *Result, rng *rand.Rand, tier string) {
 		}
 		t0 := time.Now()
 		o := c07RaceOutcome{Prog: p, Pairs: []c07RacePair{}}
-		ref := c07RunRaceProg(p, true)
+		// the serial reference run under a watchdog too (a program that cannot even finish alone is not judged)
+		refCh := make(chan c07RaceRun, 1)
+		go func() { refCh <- c07RunRaceProg(p, true) }()
+		var ref c07RaceRun
+		select {
+		case ref = <-refCh:
+		case <-time.After(c07HangAfter):
+			o.Inconclusive = fmt.Sprintf("SERIAL reference run did not finish within %v", c07HangAfter)
+			outcomes = append(outcomes, o)
+			flush()
+			continue
+		}
 		// anything the detector wrote during the serial reference run is attributed to it (expected: nothing)
 		if lb, err := os.ReadFile(logFile); err == nil && len(lb) > off {
 			for _, pr := range c07ParseRaceReports(string(lb[off:])) {
